@@ -3,6 +3,7 @@ package rel
 import (
 	"context"
 	"fmt"
+	"github.com/arr-ai/hash"
 	"reflect"
 
 	"github.com/arr-ai/arrai/pkg/fu"
@@ -287,11 +288,12 @@ func (u UnionSet) Equal(s Value) bool {
 }
 
 func (u UnionSet) Hash(seed uintptr) uintptr {
-	h := seed
+	// As for GenericSet: mix the members, fold order-independently, mix the result.
+	var h uintptr
 	for e := u.Enumerator(); e.MoveNext(); {
-		h ^= e.Current().Hash(0)
+		h ^= hashMember(e.Current(), 0)
 	}
-	return h
+	return hash.Uintptr(h, seed)
 }
 
 func (u UnionSet) OrderedValues() ValueEnumerator {
